@@ -98,7 +98,9 @@ Proof.
       { induction ls as [|l ls IH]; [reflexivity|]. cbn [existsb].
         rewrite IH by (intros x Hx; apply H; right; assumption).
         specialize (H l (or_introl eq_refl)). apply negb_true_iff in H. rewrite H. reflexivity. }
-      rewrite E. reflexivity.
+      rewrite E. destruct (single_of m inner coll) as [f|]; [|reflexivity]. f_equal. unfold single_expand.
+      clear -E. induction ls as [|l ls IH]; [reflexivity|]. cbn [existsb] in E. apply orb_false_elim in E as [E1 E2].
+      cbn [flat_map]. rewrite E1, (IH E2). reflexivity.
     + destruct (String.eqb kind "Pair"); [|discriminate].
       destruct (inner_of m inner coll) as [f|]; [|discriminate].
       apply pair_go_id. intros l Hl. specialize (H l Hl). apply andb_prop in H as [H1 H2].
